@@ -58,6 +58,16 @@ BAnswer(E, i, timedOut) == (timedOut => qBudget # 0) /\ Answer(E, i, timedOut) /
 BSpawn == Spawn /\ UNCHANGED bvars
 BWorkerDone(E, i, timedOut) == (timedOut => qBudget # 0) /\ WorkerDone(E, i, timedOut) /\ UNCHANGED bvars
 BCallReturn(E) == CallReturn(E) /\ UNCHANGED bvars
+
+(* parallel evaluation: a worker that does not deliver within its budget is *)
+(* terminated by the join; its query is reported as timed out, the rows of  *)
+(* the other queries are unaffected and no process is left behind           *)
+WorkerLost(E, i) ==
+    /\ pc = "workers" /\ i \in workers /\ qBudget # 0
+    /\ res' = Append(res, Row(E, i, TRUE))
+    /\ workers' = workers \ {i}
+    /\ UNCHANGED <<pc, prep, batch, multi, table, ncalls>>
+BWorkerLost(E, i) == WorkerLost(E, i) /\ UNCHANGED bvars
 BCallRaise == CallRaise /\ UNCHANGED bvars
 
 (* after a preprocessing time-out the next call preprocesses again *)
